@@ -192,6 +192,18 @@ func prepareDirs() {
 	if err != nil {
 		panic(err)
 	}
+	// ... and under an absolute path whose components contain '=' (a path is a path: nothing in a command word is an
+	// environment assignment, an option or a redirection)
+	os.MkdirAll(filepath.Dir(oddExe()), 0o755)
+	if old, err := os.ReadFile(oddExe()); err != nil || string(old) != string(bin) {
+		tmp := oddExe() + ".tmp"
+		if err := os.WriteFile(tmp, bin, 0o755); err != nil {
+			panic(err)
+		}
+		if err := os.Rename(tmp, oddExe()); err != nil {
+			panic(err)
+		}
+	}
 	for _, k := range []string{"plain", "space"} {
 		os.MkdirAll(filepath.Join(dirPath(k), "sub"), 0o755)
 		for _, rel := range []string{"child-copy", filepath.Join("sub", "child")} {
@@ -214,7 +226,7 @@ func prepareDirs() {
 // working directory of the new process, i.e. the run directory when one is given)
 func (in input) startable() bool {
 	switch in.Exe {
-	case "child":
+	case "child", "odd-name":
 		return in.Dir != "missing"
 	case "rel-copy", "rel-sub":
 		return hasCopies(in.Dir)
@@ -241,6 +253,8 @@ func xFiles() map[string][]byte {
 		"x-valid-sh":       []byte("#!/bin/sh\nexec '" + q + "' \"$@\"\n"),
 	}
 }
+
+func oddExe() string { return filepath.Join(workDir, "odd", "target=release", "CC=gcc;2>&1") }
 
 func xPath(kind string) string { return filepath.Join(workDir, "unstartable", kind) }
 
@@ -269,6 +283,8 @@ func (in input) args() []string {
 	cwd := realDir(in.Dir)
 	exe := childBin
 	switch in.Exe {
+	case "odd-name":
+		exe = oddExe()
 	case "rel-copy":
 		exe = "./child-copy"
 	case "rel-sub":
@@ -944,6 +960,9 @@ func gen(r *lib.Rng, tier string) []gcase {
 		add("relative-command-not-in-cwd", api, "rel-copy", inh, "o10")
 		add("relative-command-not-in-cwd", api, "rel-sub", "missing", "o10")
 	}
+	add("command-path-with-equals-sign", R, "odd-name", inh, "o100", "e70000", "x7")
+	add("command-path-with-equals-sign", I, "odd-name", "plain", "e200000", "o5")
+	add("command-path-with-equals-sign", R, "odd-name", "plain", "o10")
 	add("relative-command-in-rundir", R, "rel-copy", "space", "o100", "x7")
 	add("relative-command-in-rundir", I, "rel-sub", "plain", "e70000", "o5", "x7")
 	add("runinspections", "RunInspections", child, "plain", "o10", "e20")
